@@ -283,7 +283,13 @@ def _custom_gate_instance_from_dict(dict_, custom_gate_defs) -> _gates.Gate:
             f"Custom gate definition for {dict_['name']} missing from serialized dict"
         )
 
-    symbol_names = map(serialize_expr, gate_def.params_ordering)
+    # The arguments are read against their own free symbols, as for built-in gates
+    # (the definition's formal parameter names are unrelated to them; they are only a
+    # fallback for dictionaries that carry no "free_symbols"). A list, not an iterator:
+    # the names are needed for every argument.
+    symbol_names = dict_.get("free_symbols") or [
+        serialize_expr(symbol) for symbol in gate_def.params_ordering
+    ]
     return gate_def(
         *[deserialize_expr(param, symbol_names) for param in dict_.get("params", [])]
     )
